@@ -397,7 +397,13 @@ class B64Rules:
                         for d in walk(f['body']):
                             if d['k'] == 'DeclStmt':
                                 for x in d['decls']:
-                                    if x['id'] == dst['d'] and x.get('init'):
+                                    if x['id'] != dst['d']:
+                                        continue
+                                    xt = prog.type(x.get('t')) or {}
+                                    if xt.get('k') == 'array' and xt.get('n'):
+                                        # a local array of known extent
+                                        size = xt['n'] * ((prog.type(xt.get('el')) or {}).get('size') or 1)
+                                    elif x.get('init'):
                                         ne = strip(x['init'])
                                         if ne.get('k') == 'CXXNewExpr' and ne.get('arr') is not None:
                                             size = ne['arr'].get('cv')
@@ -407,8 +413,24 @@ class B64Rules:
                         out.append((nloc(n), size))
                 if n['k'] == 'CallExpr' and n['callee'].get('m') == self.val['id']:
                     a0, a1 = strip(n['args'][0]), strip(n['args'][1])
-                    ok = a1.get('k') == 'CallExpr' and a1['callee'].get('q') in ('strlen', 'std::strlen') and \
-                        strip(a1['args'][0]).get('d') == a0.get('d') and a0.get('d') is not None
+                    def is_len_of(e, strdecl):
+                        e = strip(e)
+                        if e.get('k') == 'ParenExpr' and e.get('e'):
+                            return is_len_of(e['e'], strdecl)
+                        if e.get('k') == 'CallExpr' and e['callee'].get('q') in ('strlen', 'std::strlen'):
+                            return strip(e['args'][0]).get('d') == strdecl and strdecl is not None
+                        if e.get('k') == 'DeclRefExpr':
+                            # a local that is initialised with the strlen of the same string and assigned nowhere else
+                            for d in walk(f['body']):
+                                if d['k'] == 'DeclStmt':
+                                    for x in d['decls']:
+                                        if x['id'] == e.get('d') and x.get('init') is not None:
+                                            assigned = any(m['k'] in ('BinaryOperator', 'CompoundAssignOperator', 'UnaryOperator')
+                                                           and (m.get('op') in ('=', '++', '--') or m['k'] == 'CompoundAssignOperator')
+                                                           and strip(m.get('lhs') or m.get('e') or {}).get('d') == e.get('d') for m in walk(f['body']))
+                                            return (not assigned) and is_len_of(x['init'], strdecl)
+                        return False
+                    ok = is_len_of(a1, a0.get('d'))
                     rec.ob('R16.v', 'R16.v@%s::validator-sees-whole-string' % fkey(f), ok, nloc(n),
                            'validator called with %s' % ('the strlen of the same string' if ok else 'a length that is not the strlen of the validated string (a longer string with a valid prefix passes)'))
         return out
